@@ -20,6 +20,9 @@ pub struct Case {
     pub vocab_size: usize,
     pub num_special: usize,
     pub nfkc: bool,
+    /// 0: `nfkc` decides (None / NFKC); 1 NFC, 2 NFD, 3 NFKD
+    #[serde(default)]
+    pub norm_kind: u8,
     pub threads: u8,
     pub max_lines: Option<usize>,
 }
@@ -139,8 +142,8 @@ struct ReplayInfo {
 impl Prop for C19 {
     type Case = Case;
     const ID: &'static str = "C19";
-    const RULE: &'static str = "corpora of 1-2 files x 0-4 lines x 1-5 words of length 1-7 over 1-3 letter alphabets (multi-byte and NFKC-expanding letters, double spaces), occasionally 1-3 natural sentences; x vocab_size in {256,320,384} x num_special_tokens 0..=70 (0-128 requested merges, usually more than the corpus supplies) x normalisation {None, NFKC} x num_threads 0..=4 x max_lines_per_file. Oracle: table ids are exactly 0..n-1, n <= requested; replay with a full recount of all adjacent pair frequencies after every merge: entry i must be the concatenation of an adjacent pair whose frequency is positive and maximal (ties explored), training may stop early only when no pair is left; the table is well-formed and a BPETokenizer built from it round-trips the corpus lines and agrees with the table on ids. Non-trivial: a word with an overlapping or repeated pair, and (corpus exhausted before the request or >= 3 merges with a merged operand). Distinct = distinct serialised case.";
-    const ESSENTIAL: &'static [&'static str] = &["exhausted", "overlap_or_repeat", "depth>=2", "tie", "threads>1", "zero_merges_requested", "full_request"];
+    const RULE: &'static str = "corpora of 1-2 files x 0-4 lines x 1-5 words of length 1-7 over 1-3 letter alphabets (multi-byte and NFKC-expanding letters, double spaces), occasionally 1-3 natural sentences; x vocab_size in {256,320,384} x num_special_tokens 0..=70 (0-128 requested merges, usually more than the corpus supplies) x normalisation {None, NFKC, NFC, NFD, NFKD} x num_threads 0..=4 x max_lines_per_file. Oracle: table ids are exactly 0..n-1, n <= requested; replay with a full recount of all adjacent pair frequencies after every merge: entry i must be the concatenation of an adjacent pair whose frequency is positive and maximal (ties explored), training may stop early only when no pair is left; the table is well-formed and a BPETokenizer built from it round-trips the corpus lines and agrees with the table on ids. Non-trivial: a word with an overlapping or repeated pair, and (corpus exhausted before the request or >= 3 merges with a merged operand). Distinct = distinct serialised case.";
+    const ESSENTIAL: &'static [&'static str] = &["exhausted", "overlap_or_repeat", "depth>=2", "tie", "threads>1", "zero_merges_requested", "full_request", "normalised"];
 
     fn budget(tier: Tier) -> Budget {
         match tier {
@@ -155,14 +158,16 @@ impl Prop for C19 {
             select(vec![256usize, 320, 320, 384]),
             prop_oneof![3 => 0usize..=70, 1 => 50usize..=64],
             any::<bool>(),
+            prop_oneof![4 => Just(0u8), 1 => 1u8..=3],
             0u8..=4,
             prop_oneof![3 => Just(None), 1 => (0usize..4).prop_map(Some)],
         )
-            .prop_map(|(files, vocab_size, num_special, nfkc, threads, max_lines)| Case {
+            .prop_map(|(files, vocab_size, num_special, nfkc, norm_kind, threads, max_lines)| Case {
                 files,
                 vocab_size,
                 num_special,
                 nfkc,
+                norm_kind,
                 threads,
                 max_lines,
             })
@@ -196,7 +201,14 @@ impl Prop for C19 {
         let requested = c.vocab_size.saturating_sub(256).saturating_sub(c.num_special);
         out.label_if(requested == 0, "zero_merges_requested");
         out.label_if(c.threads > 1, "threads>1");
-        let norm = if c.nfkc { Some(Normalization::NFKC) } else { None };
+        let norm = match c.norm_kind {
+            1 => Some(Normalization::NFC),
+            2 => Some(Normalization::NFD),
+            3 => Some(Normalization::NFKD),
+            _ if c.nfkc => Some(Normalization::NFKC),
+            _ => None,
+        };
+        out.label_if(norm.is_some(), "normalised");
         let r = train_bpe(&paths, c.vocab_size, c.num_special, &out_file, c.max_lines, norm, c.threads, false);
         install_panic_hook();
         if let Err(e) = r {
@@ -232,8 +244,8 @@ impl Prop for C19 {
         for lines in &c.files {
             for l in lines.iter().take(c.max_lines.unwrap_or(usize::MAX)) {
                 let mut l = clean(l, true);
-                if c.nfkc {
-                    l = normalize(&l, Normalization::NFKC, true);
+                if let Some(n) = norm {
+                    l = normalize(&l, n, true);
                 }
                 for w in model::split_ws_words(&l) {
                     *counts.entry(w.to_string()).or_insert(0) += 1;
